@@ -265,6 +265,7 @@ func computeProllyTreePatches(
 		!needsSchemaMigration &&
 		!diffInfo.RightSchemaChange &&
 		!diffInfo.LeftSchemaChange
+	canFastMergeProllyTrees = canFastMergeProllyTrees && verifFastPathAllowed()
 	if canFastMergeProllyTrees {
 		lDiff, err := tree.PatchGeneratorFromRoots(ctx, ns, ns, ancRows.Node(), leftRows.Node(), leftRows.Tuples().Order)
 		if err != nil {
